@@ -219,6 +219,19 @@ def solver_roots_oracle(chk):
                 if has:
                     return chk.fail('root-not-explicit', f"after PassSequence.solve the root hook {h.owner.__qualname__}.{h.name} of {label} has a value "
                                     f"but is not an explicit value of the object (it would be lost by re-evaluation and hand-over)", {'object': label, 'hook': h.name})
+        # sibling classes: what the solver makes explicit on a part of a two-roll pass it makes explicit on the same part of a three-roll pass (and back),
+        # whenever a common base class of both declares the hook
+        names = {h.name for h in root_hooks}
+        two, three = seq['oval'], seq['three-roll']
+        for part in (None, 'roll'):      # (the profiles of a three-roll pass carry an entry of their own by design)
+            a, b = (two, three) if part is None else (getattr(two, part), getattr(three, part))
+            for x, y in ((a, b), (b, a)):
+                for n in sorted(names & set(x.__dict__)):
+                    chk.cov['evaluations'] += 1
+                    if any(hasattr(c, n) for c in type(x).__mro__ if c in type(y).__mro__) and n not in y.__dict__:
+                        return chk.fail('root-not-explicit', f"after PassSequence.solve {n} is an explicit value of the {part or 'unit'} of {type(x).__name__} {x.label if part is None else ''!r} but not "
+                                        f"of the same part of its sibling {type(y).__name__ if part is None else type(three if y is b else two).__name__}: a common base declares the hook, "
+                                        f"one root-hook entry should cover both", {'part': part or 'unit', 'hook': n})
         before = {(label, n): v for label, o in objs for n, v in o.__dict__.items()}
         for label, o in objs:
             if hasattr(o, 'reevaluate_cache'):
@@ -308,6 +321,29 @@ def handover_oracle(chk):
                             f"one-argument callable got {'nothing' if not got else 'another object' if got[-1] is not p else 'the object'}", {'position': label})
 
 
+def reentrant_reads(chk):
+    """an implementation that re-enters its own hook (the cycle pattern): the value the outermost read returns is the remembered one, every later read returns it"""
+    from typing import Any
+    from pyroll.core.hooks import Hook, HookHost
+    for depth in (1, 2):
+        class H(HookHost):
+            x = Hook[Any]()
+            y = Hook[Any]()
+        H.x(lambda self: 21)
+        if depth == 1:
+            H.x(lambda self, cycle: None if cycle else self.x * 2)
+        else:
+            H.y(lambda self: self.x + 1)
+            H.x(lambda self, cycle: None if cycle else self.y * 2)
+        want = 42 if depth == 1 else 44
+        h = H()
+        reads = [h.x, h.x, h.__cache__.get('x'), h.x]
+        chk.cov['evaluations'] += 1
+        if reads != [want] * 4:
+            return chk.fail('lifecycle', f"an implementation of x that reads x again {'directly' if depth == 1 else 'through y'} while the cycle flag is not set (inner value 21): first read, "
+                            f"second read, remembered value, third read = {reads}, expected {want} throughout", {'case': 'reentrant', 'depth': depth})
+
+
 def run(chk):
     chk.coq.add_prop_file('C02.v')
     chk.coq.compile('C02.v', is_props=True, timeout=900)
@@ -342,6 +378,8 @@ def run(chk):
         handover_oracle(chk)
     if not chk.failures:
         one_shot_values(chk)
+    if not chk.failures:
+        reentrant_reads(chk)
     chk.sample(ser(cases[0]))
     chk.cov['rule'] = ("seeded random histories of read / assign (plain, falsy, None, zero- and one-argument callables) / delete / "
                        "re-evaluate / cache clear / register / remove / root evaluation / has_* on 1-3 instances of 1-3 classes with "
